@@ -3581,8 +3581,13 @@ class DecVar(Vars):
         self.event_adapt = [list(range(dro_model.num_scen))]
         self.rand_adapt = None
         self.ro_first = - 1
-        self.fixed = fixed
         self.name = name
+
+    @property
+    def fixed(self):
+        # static unless an entry was declared affinely adaptive, either
+        # through the variable or through one of its slices
+        return self.rand_adapt is None or not self.rand_adapt.any()
 
     def __repr__(self):
 
@@ -3656,7 +3661,6 @@ class DecVar(Vars):
 
     def affadapt(self, rvars):
 
-        self.fixed = False
         if self.shape == ():
             self.shape = (1, )
             self[:].affadapt(rvars)
@@ -3788,7 +3792,15 @@ class DecVarSub(VarSub):
         self.event_adapt = dvars.event_adapt
         self.rand_adapt = dvars.rand_adapt
         self.dvars = dvars
-        self.fixed = fixed
+
+    @property
+    def fixed(self):
+        # the adaptation table of the parent variable is authoritative: the
+        # selected entries are static unless one of them is adaptive
+        adapt = self.dvars.rand_adapt
+        if adapt is None:
+            return True
+        return not adapt[np.asarray(self.indices).reshape(-1)].any()
 
     def __repr__(self):
 
@@ -3816,7 +3828,6 @@ class DecVarSub(VarSub):
 
     def adapt(self, rvars):
 
-        self.fixed = False
         if not isinstance(rvars, (RandVar, RandVarSub)):
             raise TypeError('Affine adaptation requires a random variable.')
 
@@ -3837,7 +3848,6 @@ class DecVarSub(VarSub):
             raise SyntaxError('Adaptation must be defined ' +
                               'before the model is formulated.')
 
-        self.fixed = False
         num_rand = self.dro_model.sup_model.vars[-1].last
         if self.dvars.rand_adapt is not None:
             self.rand_adapt = self.dvars.rand_adapt
